@@ -183,6 +183,17 @@ pub fn like_stream(ctx: &mut Ctx) {
 	like_case!(ctx; Vec<u32>, &'static [u32] => VecDeque<u32>, false, |o| &o[..]);
 	like_case!(ctx; Vec<u32>, Vec<Box<u32>> => Vec<u32>, false, |o| o.iter().map(|x| Box::new(*x)).collect::<Vec<_>>());
 	like_case!(ctx; Vec<u32>, Vec<&'static u32> => Vec<u32>, false, |o| o.iter().collect::<Vec<_>>());
+	// pointer-sized holders around 8-byte (and other) primitives inside slice-like containers
+	like_case!(ctx; Vec<u64>, Vec<Box<u64>> => Vec<u64>, false, |o| o.iter().map(|x| Box::new(*x)).collect::<Vec<_>>());
+	like_case!(ctx; Vec<u64>, Vec<&'static u64> => Vec<u64>, false, |o| o.iter().collect::<Vec<_>>());
+	like_case!(ctx; Vec<i64>, VecDeque<Rc<i64>> => Vec<i64>, false, |o| o.iter().map(|x| Rc::new(*x)).collect::<VecDeque<_>>());
+	like_case!(ctx; Vec<f64>, Vec<Arc<f64>> => Vec<f64>, false, |o| o.iter().map(|x| Arc::new(*x)).collect::<Vec<_>>());
+	like_case!(ctx; [i64; 3], [Box<i64>; 3] => [i64; 3], false, |o| [Box::new(o[0]), Box::new(o[1]), Box::new(o[2])]);
+	like_case!(ctx; [u64; 2], [&'static u64; 2] => [u64; 2], false, |o| [&o[0], &o[1]]);
+	like_case!(ctx; Vec<u64>, Vec<parity_scale_codec::Ref<'static, u64, u64>> => Vec<u64>, false, |o| o.iter().map(parity_scale_codec::Ref::from).collect::<Vec<_>>());
+	like_case!(ctx; Vec<u8>, Vec<Box<u8>> => Vec<u8>, false, |o| o.iter().map(|x| Box::new(*x)).collect::<Vec<_>>());
+	like_case!(ctx; Vec<u128>, Vec<&'static u128> => Vec<u128>, false, |o| o.iter().collect::<Vec<_>>());
+	like_case!(ctx; Vec<u16>, VecDeque<Arc<u16>> => VecDeque<u16>, false, |o| o.iter().map(|x| Arc::new(*x)).collect::<VecDeque<_>>());
 	like_case!(ctx; Option<u32>, Option<&'static u32> => Option<u32>, false, |o| o.as_ref());
 	like_case!(ctx; Option<u32>, Option<Box<u32>> => Option<u32>, false, |o| o.map(Box::new));
 	like_case!(ctx; Result<u32, u8>, Result<&'static u32, &'static u8> => Result<u32, u8>, false, |o| o.as_ref());
